@@ -134,7 +134,7 @@ func tuneRacePrograms(c *RunCtx, nq, nt int) {
 				cfg.To = append(cfg.To, Pick(r, 1, 2, 3, cfg.Conc, cfg.Conc+2))
 			}
 			p.Explore(func(pl Plan) *Result { return epTuneRace(c, cfg) },
-				ExploreOpts{Base: 4, K: c.Q(4, 8), Funcs: []string{"TunePool", "sendToNextChannel", "PopBack", "Back", "Remove", "PushNode", "freePoolNode", "processNextJob", "initPoolNode", "Node.Stop", "Node.Send"}, Pairs: c.Q(30, 150), MaxCases: c.Q(250, 3000)})
+				ExploreOpts{Base: 4, Noise: c.Q(20, 100), K: c.Q(4, 8), Funcs: []string{"TunePool", "sendToNextChannel", "PopBack", "Back", "Remove", "PushNode", "freePoolNode", "processNextJob", "initPoolNode", "Node.Stop", "Node.Send"}, Pairs: c.Q(30, 150), MaxCases: c.Q(250, 3000)})
 		})
 	}
 }
